@@ -706,6 +706,12 @@ def monitor(sim, sc):
         gaps = [b - a for a, b in zip(ts, ts[1:])]
         if gaps and min(gaps) < 0.499:
             out.append(("C13", "retry-floor", f"two connection attempts {min(gaps):.3f} s apart ({len(ts)} attempts): the delay between attempts falls below the 0.5 s floor"))
+    # C13: "retries for as long as needed" also while the application keeps sending into the dead link: the attempts go on
+    if sc["shape"] == "flap":
+        n_att = sum(1 for e in ev if e.startswith("implStart"))
+        if n_att < 4 and "STALL" not in ev:
+            out.append(("C13", "retry-starved", f"only {n_att} connection attempt(s) in the three seconds during which the gateway kept dropping the link and the application kept sending: "
+                                                 "the failing sends keep the reconnect from happening"))
     # C19: a message sent on the current link goes out even if an earlier sender is stuck on a link that has been given up
     if "--sendStuck 1" in ev and fault:
         out.append(("C19", "send-blocked", "a sender suspended in drain() on a link that has been given up after a fault is never released: the link is replaced without being shut"))
